@@ -74,13 +74,10 @@ def s_harness(params, prefix, part):
 def run(ctx):
     from vt.connlib import before_fork
     before_fork()
-    for name, params, depth in ctx.rotate(e_configs(ctx)):
-        explore.bfs(ctx, poollib.PoolHarness, params, max_depth=depth, label='c13-E-' + name,
-                    max_states=300000 if ctx.thorough else 40000)
+    poollib.run_e(ctx, ctx.rotate(e_configs(ctx)), 'c13-E-', max_states=300000 if ctx.thorough else 40000)
     explore.close_pool()
     e_states, e_trans = ctx.counters.get('states', 0), ctx.counters.get('executions', 0)
-    for name, params, bound in ctx.rotate(s_configs(ctx)):
-        sched.explore(ctx, 'c13-S-' + name, s_harness, params, bound, max_executions=400000 if ctx.thorough else 20000)
+    poollib.run_s(ctx, __name__, ctx.rotate(s_configs(ctx)), 'c13-S-', max_executions=400000 if ctx.thorough else 20000)
     s_execs = ctx.counters.get('executions', 0) - e_trans
     ctx.count('states', s_execs)          # engine S is stateless: one execution = one explored path
     ctx.cov['engine_E'] = {'states': e_states, 'transitions': e_trans}
